@@ -100,6 +100,8 @@ type tqGen struct {
 	pinned   string // config transcribing the pinned code: must be violated (non-vacuity)
 	simulate string // optional: second generation pass in simulation mode with this cfg
 	simCfg   string
+	extraCfg    string // optional: a second exhaustive config (other constants), model-checked and generated from as well
+	extraBudget int
 	budget   int // scripts to replay
 	perts    int // perturbed schedules per script
 	conc     []int
@@ -212,36 +214,68 @@ func runTQ(c *core.Ctx, own tqOwner, g tqGen) {
 		fmt.Fprintf(f, "%d|%s", c.Seed, s.key())
 		return f.Sum64()
 	}
-	sort.Slice(all, func(i, j int) bool { return h(all[i]) < h(all[j]) })
-	var chosen []*tqScript
-	perClass := map[string]int{}
-	quota := g.budget / 40
-	if quota < 5 {
-		quota = 5
-	}
-	picked := map[*tqScript]bool{}
-	for _, s := range all {
-		need := false
-		for _, cl := range s.classes() {
-			if perClass[cl] < quota {
-				need = true
-			}
+	pick := func(all []*tqScript, budget int) []*tqScript {
+		sort.Slice(all, func(i, j int) bool { return h(all[i]) < h(all[j]) })
+		var chosen []*tqScript
+		perClass := map[string]int{}
+		quota := budget / 40
+		if quota < 5 {
+			quota = 5
 		}
-		if need && len(chosen) < g.budget {
+		picked := map[*tqScript]bool{}
+		for _, s := range all {
+			need := false
 			for _, cl := range s.classes() {
-				perClass[cl]++
+				if perClass[cl] < quota {
+					need = true
+				}
 			}
-			chosen = append(chosen, s)
-			picked[s] = true
+			if need && len(chosen) < budget {
+				for _, cl := range s.classes() {
+					perClass[cl]++
+				}
+				chosen = append(chosen, s)
+				picked[s] = true
+			}
 		}
+		for _, s := range all {
+			if len(chosen) >= budget {
+				break
+			}
+			if !picked[s] {
+				chosen = append(chosen, s)
+			}
+		}
+		return chosen
 	}
-	for _, s := range all {
-		if len(chosen) >= g.budget {
-			break
+	chosen := pick(all, g.budget)
+	if g.extraCfg != "" {
+		// other constants (e.g. batches of two over three objects with fewer answer kinds): checked
+		// exhaustively and generated from like the main config, with a replay budget of its own
+		xcfg := writeCfgVariant(c, g.extraCfg, "TQ_xgen.cfg", map[string]string{"Emit = FALSE": "Emit = TRUE"})
+		rx := c.TLC(core.TLCOpts{Module: "TransferQueue", Cfg: xcfg, Workers: 8, Timeout: 30 * time.Minute, HeapGB: 12})
+		c.MustPass(rx, "TransferQueue/"+g.extraCfg)
+		var extra []*tqScript
+		xseen := map[string]bool{}
+		nx, err := core.ReadBehaviours(rx.OutFile, func(raw []byte) error {
+			var s tqScript
+			if err := json.Unmarshal(raw, &s); err != nil {
+				return err
+			}
+			if k := s.key(); !xseen[k] && !seen[k] {
+				xseen[k] = true
+				extra = append(extra, &s)
+			}
+			return nil
+		})
+		if err != nil {
+			c.Infra("read behaviours of %s: %v", g.extraCfg, err)
 		}
-		if !picked[s] {
-			chosen = append(chosen, s)
-		}
+		c.Set("extra_config", g.extraCfg)
+		c.Set("extra_config_states", rx.Distinct)
+		c.Set("extra_config_edges_emitted", nx)
+		c.Set("extra_config_distinct_scripts", len(extra))
+		chosen = append(chosen, pick(extra, g.extraBudget)...)
 	}
 	// expand by perturbed schedules / concurrency
 	var runs []*tqScript
@@ -285,8 +319,49 @@ func runTQ(c *core.Ctx, own tqOwner, g tqGen) {
 		}
 	}
 	c.Set("late_duplicate_schedules", nLate)
+	// targeted schedule family "late add": for scripts with several objects of which one is retried, the
+	// last new object is added only once a retry has been scheduled, so that a fresh object and a
+	// retried one (different retry counts) can end up in one batch
+	nLateAdd := 0
+	for _, s := range chosen {
+		distinct := map[string]bool{}
+		for _, a := range s.Adds {
+			distinct[a] = true
+		}
+		retries := false
+		for _, l := range s.Ad {
+			for _, k := range l {
+				if k == "retriable" || k == "later" {
+					retries = true
+				}
+			}
+		}
+		for _, l := range s.Resp {
+			for _, k := range l {
+				if k == "expired" {
+					retries = true
+				}
+			}
+		}
+		if len(distinct) >= 2 && retries && nLateAdd < g.budget/2 {
+			cp := *s
+			id++
+			cp.ID = id
+			cp.Pert = 0
+			cp.Sched = "lateadd"
+			runs = append(runs, &cp)
+			nLateAdd++
+		}
+	}
+	c.Set("late_add_schedules", nLateAdd)
 	c.Set("scripts_replayed", len(chosen))
-	c.Set("class_counts", perClass)
+	classCounts := map[string]int{}
+	for _, s := range chosen {
+		for _, cl := range s.classes() {
+			classCounts[cl]++
+		}
+	}
+	c.Set("class_counts", classCounts)
 	c.Logf("replaying %d runs (%d scripts x %d schedules) of %d distinct scripts", len(runs), len(chosen), g.perts, len(all))
 
 	// 5. replay in child processes
